@@ -14,6 +14,18 @@ CLAIMS = {
         'technique': 'Lean 4 proof (soundness w.r.t. inductive reference semantics) + differential correspondence',
         'design_ref': 'DESIGN.md section 5, C04',
     },
+    'C05': {
+        'text': "Lean theorem C05.rest_of_line: in every machine state over classic documents whose top item is a group, for every width, ribbon and both strategies, if the fitting predicate holds (the group is laid out flat, C05.flat_iff_fits) then everything emitted up to the next line break ends within the page width and within indent + ribbon. Proof: fast predicate = predicate with indentation erased (fitsFast_eq_fitsE), monotone in modes (fitsE_mono), smart => fast (smart_imp_fast), simulation invariant along the machine run (sim). Tied to /repo by the classic-algebra engine correspondence; the overflow oracle (group decisions recorded through a recording fitting predicate) is evaluated on the implementation for every enumerated document. K1 (bare hardline inside a flat group) is a listed known finding.",
+        'note': "the theorem's algebra omits align (covered by correspondence and oracle only); model = code only on the explored inputs",
+        'technique': 'Lean 4 proof (simulation invariant over the stack machine) + differential correspondence + implementation-side oracle',
+        'design_ref': 'DESIGN.md section 5, C05',
+    },
+    'C06': {
+        'text': "Lean theorems C06.fits_iff_spec (the fast predicate holds iff no forced break starts on the current line and the flat text up to the first line break is at most the budget — a budget-free scan, fitsE_iff_scan), C06.broken_only_if (a group is laid out broken only for one of the reasons the property allows) and C06.flat_only_if, for every classic stack, width, ribbon. Tied to /repo by the classic-algebra engine correspondence; the one-line-stability oracle is evaluated on the implementation.",
+        'note': "partial for the smart strategy: its extra reason is stated (fast accepts, smart rejects a following line) but not characterised denotationally; value-level (pformat) one-line stability is checked by the oracle only until the printer model lands",
+        'technique': 'Lean 4 proof (predicate = denotational scan) + differential correspondence + implementation-side oracle',
+        'design_ref': 'DESIGN.md section 5, C06',
+    },
 }
 
 
